@@ -52,6 +52,12 @@ class Known:
         return None
 
 
+def stable_hash(obj):
+    """Process-independent hash for thinning enumerated families (the builtin hash() of strings changes from run to run)."""
+    import zlib
+    return zlib.crc32(repr(obj).encode())
+
+
 class Check:
     """One run of one property check. Collects obligations, verdicts, samples, timings; decides the exit code."""
 
